@@ -391,3 +391,22 @@ pub fn filter_block_roundtrip(
 ) -> Result<Vec<Vec<bool>>, String> {
     crate::tables::verif_filter_block_roundtrip(filter_policy, blocks)
 }
+
+static LEVEL_BASE_BYTES: AtomicU64 = AtomicU64::new(0);
+
+/**
+Override the base of the per-level size limits (level 1 may hold ten times this many bytes, every
+deeper level ten times more; the built-in base is 1 MiB). 0 restores the built-in value. With a base
+of a few hundred bytes, size-triggered compactions cascade into levels 3 and deeper with a few
+kilobytes of data, which is otherwise only reachable with hundreds of megabytes.
+*/
+pub fn set_level_base_bytes(base: u64) {
+    LEVEL_BASE_BYTES.store(base, Ordering::SeqCst);
+}
+
+pub(crate) fn level_base_bytes(default: f64) -> f64 {
+    match LEVEL_BASE_BYTES.load(Ordering::Relaxed) {
+        0 => default,
+        base => base as f64,
+    }
+}
